@@ -20,11 +20,11 @@ def run(ctx):
         setup_sets.append(sc)
     base = consts(SubIds=subs, Nodes=subs, Vals={0, 1, 2}, Acts={"Write", "Pub", "Tick"}, Scripts=scripts(setup_sets),
                   MaxWrites=3 if q else 4, MaxPubs=3 if q else 4, MaxTicks=4 if q else 5,
-                  MaxDepth=len(setup_sets[0]) + (6 if q else 8))
+                  MaxDepth=len(setup_sets[0]) + (6 if q else 7))
     mc = dict(base, Mons={"C27"})
     ctx.model_check("design", "MCSubs", mc, ["C27"], view="MView")
     ctx.model_check("dev_prio_asc", "MCSubs", dict(mc, DevPrioAsc=True), ["C27"], view="MView", expect_violation="C27")
-    h, r = ctx.gen("interleavings", "GenSubs", base)
+    h, r = ctx.gen("interleavings", "GenSubs", base if q else dict(base, MaxDepth=len(setup_sets[0]) + 5), timeout=2400)
     gens = [("interleavings", to_cases(take(h, 3000 if q else 60000, ctx.seed)))]
     n = 200 if q else 3000
     g3 = dict(base, MaxDepth=len(setup_sets[0]) + 24, MaxWrites=12, MaxPubs=12, MaxTicks=14, Dts={0, 1, 2})
